@@ -30,7 +30,7 @@ ASSUMPTIONS = [
 ]
 
 SUFFIX_CLASSES = ("r1", "r2", "r7", "r8", "r15", "r16", "r17", "r64", "zeros", "ones", "same_unit", "other_unit", "tlv_like", "lv_like",
-                  "seg8", "seg16", "file_data_like", "crc_of_whole")
+                  "seg8", "seg16", "file_data_like", "crc_of_whole", "constants")
 
 
 def make_suffix(r, cls, unit: bytes, other: bytes) -> bytes:
@@ -54,6 +54,10 @@ def make_suffix(r, cls, unit: bytes, other: bytes) -> bytes:
         return r.randbytes(16 * r.randrange(1, 3))
     if cls == "file_data_like":
         return bytes(range(33, 33 + r.randrange(5, 40)))
+    if cls == "constants":
+        from spverif.core.util import harvested_constants
+        cs = harvested_constants()
+        return b"".join(r.choice(cs) for _ in range(r.randrange(1, 4)))
     if cls == "crc_of_whole":
         body = r.randbytes(r.randrange(0, 5))
         return body + crc16(unit + body).to_bytes(2, "big")
@@ -174,7 +178,9 @@ def unit_registry():
             elif name == "flow_label":
                 p = {"label": rand_bytes(r, r.randrange(0, 20)).hex()}
             elif name == "msg_to_user":
-                p = {"msg": rand_bytes(r, r.randrange(0, 20)).hex()}
+                # half of them reserved CFDP messages ('cfdp', message type, fields), the rest arbitrary content
+                p = {"msg": (b"cfdp" + bytes([r.choice((0x00, 0x04, 0x07, 0x0A, 0x0B, 0x10, 0x11, 0x15, r.getrandbits(8)))]) + rand_bytes(r, r.randrange(0, 16))).hex()
+                     if r.random() < 0.5 else rand_bytes(r, r.randrange(0, 20)).hex()}
             elif name == "fault_handler":
                 p = {"cond": r.choice(C.CONDS), "handler": r.choice((1, 2, 3, 4))}
             elif name == "fs_request":
@@ -275,14 +281,22 @@ def k_back_to_back(ctx, names, seed):
     case = {"k": "back_to_back", "names": names, "seed": seed}
     ctx.case("back_to_back/" + ("same" if len(set(names)) == 1 else "mixed"), stream, sample=dict(case, stream=stream.hex()[:160]))
     i = 0
+    kept = []
     for n, (u, dec, obs) in zip(names, parts):
-        ok, got = attempt(lambda: obs(dec(stream[i:])))
+        ok, o = attempt(dec, stream[i:])
+        ok, got = attempt(obs, o) if ok else (False, o)
         ok2, base = attempt(lambda: obs(dec(u)))
         if not ctx.check("back_to_back_split", ok and ok2 and got == base, "unit_differs_in_stream", n, case, offset=i,
                          observed=got if ok else repr(got), expected=base if ok2 else repr(base)):
             return
+        kept.append((n, o, obs, got))
         i += got["len"]
     ctx.check("back_to_back_split", i == len(stream), "lengths_do_not_add_up", "", case, observed=i, expected=len(stream))
+    # the objects decoded from the earlier parts of the stream are still what they were once the later parts have been decoded
+    for n, o, obs, got in kept[:-1]:
+        ok, again = attempt(obs, o)
+        if not ctx.check("back_to_back_split", ok and again == got, "earlier_decoded_unit_changed_by_a_later_decode", n, case, observed=again if ok else repr(again), expected=got):
+            return
 
 
 def k_pdu(ctx, kind, cfg, p, suffix_cls, seed):
@@ -323,7 +337,34 @@ def k_pdu(ctx, kind, cfg, p, suffix_cls, seed):
             ctx.fail("suffix_non_interference", "decode_differs", f"{feat}/{dname}/repack_or_len", case, suffix=s, observed=bytes(rp).hex()[:120] if ok2 else repr(rp))
 
 
-KINDS = {"unit": k_unit, "back_to_back": k_back_to_back, "pdu": k_pdu}
+def k_pdu_stream(ctx, seed):
+    """Several complete PDUs of different kinds and header configurations received one after the other (each in its own
+    buffer, some followed by further octets): every decoded PDU still reports its own parameters, lengths and octets after the
+    later ones have been decoded."""
+    import random
+    r = random.Random(f"pdustream/{seed}")
+    X = C.lib()
+    case = {"k": "pdu_stream", "seed": seed}
+    ctx.case("pdu_stream", seed, sample=case)
+    kept = []
+    for _ in range(r.randrange(2, 6)):
+        kind = r.choice(C.KINDS8)
+        cfg = C.rand_cfg(r, segctrl=(kind == "file_data"))
+        p = C.rand_params(r, kind, cfg, rich=False)
+        u = C.ref_octets(kind, cfg, p)
+        dec = X.CLS[kind].unpack if r.random() < 0.5 else X.PduFactory.from_raw
+        ok, o = attempt(dec, u)
+        if not ok or o is None:
+            continue
+        view = lambda o=o, kind=kind: (C.norm_params(kind, C.get_params(kind, o)), C.hdr_fields(o.pdu_header), o.packet_len, bytes(o.pack()).hex())  # noqa: E731
+        kept.append((kind, o, view, view(), u))
+    for kind, o, view, seen, u in kept[:-1]:
+        ok, now = attempt(view)
+        ctx.check("pdu_stream_objects_independent", ok and now == seen and now[3] == u.hex(), "earlier_decoded_pdu_changed_by_a_later_decode", kind, case,
+                  observed=repr(now)[:300], expected=repr(seen)[:300])
+
+
+KINDS = {"unit": k_unit, "back_to_back": k_back_to_back, "pdu": k_pdu, "pdu_stream": k_pdu_stream}
 
 
 def run(ctx):
@@ -356,6 +397,8 @@ def run(ctx):
                     p = C.rand_params(r, kind, cfg, rich=bool(rep & 1) or ctx.quick)
                     k_pdu(ctx, kind, cfg, p, sc, ctx.seed * 1_000_003 + i)
     ctx.exhaustive.append(f"8 PDU kinds x CRC off/on x {len(SUFFIX_CLASSES)} suffix classes")
+    for j in range(ctx.n(600, 40_000)):
+        k_pdu_stream(ctx, ctx.seed * 1_000_003 + ctx.shard[0] * 100_003 + j)
 
 
 def conclude(ctx):
@@ -367,5 +410,5 @@ def conclude(ctx):
         for crc in (0, 1):
             for sc in SUFFIX_CLASSES:
                 ctx.require(ctx.classes.get(f"pdu_{kind}/crc={crc}/{sc}", 0) > 0, f"cell pdu_{kind}/crc={crc}/{sc} empty")
-    for m in ("suffix_non_interference", "reported_length", "back_to_back_split", "unit_alone_decodes", "pdu_params_are_constructor_args"):
+    for m in ("suffix_non_interference", "reported_length", "back_to_back_split", "unit_alone_decodes", "pdu_params_are_constructor_args", "pdu_stream_objects_independent"):
         ctx.require(ctx.monitors.get(m, {}).get("evaluations", 0) > 0, f"monitor {m} never evaluated")
